@@ -25,6 +25,7 @@ pub fn requirements(tier: Tier) -> Vec<(&'static str, u64)> {
         ("members-exercised", 3_072),
         ("runs:parser", if q { 50_000 } else { 1_000_000 }),
         ("runs:builder", if q { 20_000 } else { 300_000 }),
+        ("runs:new", if q { 20_000 } else { 300_000 }),
         ("trace:conversion-failed", 1_000),
         ("trace:hook-failed", 1_000),
         ("trace:conversion-not-reached", 1_000),
@@ -57,12 +58,33 @@ pub struct Judged {
     pub post_refused: bool,
 }
 
+/// How a PURL of the user-supplied type is obtained.
+#[derive(Clone, Copy, PartialEq, Eq, Debug)]
+pub enum Entry {
+    /// `s.parse()`
+    Parser,
+    /// `GenericPurlBuilder::new(shape, name).with_namespace(..).with_version(..).build()`
+    Builder,
+    /// `GenericPurl::new(shape, name)`, the one-step form of `builder(..).build()`
+    New,
+}
+
 pub fn judge(cfg: &Cfg, input: &str, via_parser: bool) -> (Option<Judged>, Option<Fail>) {
+    judge_entry(cfg, input, if via_parser { Entry::Parser } else { Entry::Builder })
+}
+
+pub fn judge_entry(cfg: &Cfg, input: &str, entry: Entry) -> (Option<Judged>, Option<Fail>) {
     shapes::set_cfg(cfg);
-    let out = if via_parser {
-        obs::parse::<Shape>(input)
-    } else {
-        obs::build(GenericPurlBuilder::new(Shape::new(cfg, "Custom"), input).with_namespace("ns0").with_version("v0"))
+    let via_parser = entry == Entry::Parser;
+    let out = match entry {
+        Entry::Parser => obs::parse::<Shape>(input),
+        Entry::Builder => obs::build(GenericPurlBuilder::new(Shape::new(cfg, "Custom"), input).with_namespace("ns0").with_version("v0")),
+        Entry::New => match obs::guard("GenericPurl::new", || purl::GenericPurl::new(Shape::new(cfg, "Custom"), input)) {
+            Out::Ok(Ok(p)) => Out::Ok(p),
+            Out::Ok(Err(e)) => Out::Err(format!("{e:?}")),
+            Out::Err(e) => Out::Err(e),
+            Out::Panic(m) => Out::Panic(m),
+        },
     };
     let log = shapes::take_log();
     let word: Vec<String> = log
@@ -77,7 +99,7 @@ pub fn judge(cfg: &Cfg, input: &str, via_parser: bool) -> (Option<Judged>, Optio
         Out::Err(e) => format!("Err({})", e.split('(').next().unwrap_or("")),
         Out::Panic(_) => "PANIC".to_string(),
     };
-    let word = format!("{}:[{}]->{}", if via_parser { "parse" } else { "build" }, word.join(","), outcome);
+    let word = format!("{}:[{}]->{}", match entry { Entry::Parser => "parse", Entry::Builder => "build", Entry::New => "new" }, word.join(","), outcome);
     if let Out::Panic(m) = &out {
         return (None, Some(Fail::tagged("panicked", m.clone(), format!("member {cfg:?}, input {input:?}: {m}"))));
     }
@@ -183,9 +205,18 @@ fn fins_type(via_parser: bool, input: &str) -> String {
 }
 
 fn one(ctx: &mut Ctx, cfg: &Cfg, input: &str, via_parser: bool) {
+    one_entry(ctx, cfg, input, if via_parser { Entry::Parser } else { Entry::Builder })
+}
+
+fn one_entry(ctx: &mut Ctx, cfg: &Cfg, input: &str, entry: Entry) {
+    let via_parser = entry == Entry::Parser;
     ctx.st.evaluations += 1;
-    ctx.st.count(if via_parser { "runs:parser" } else { "runs:builder" });
-    let (j, f) = judge(cfg, input, via_parser);
+    ctx.st.count(match entry {
+        Entry::Parser => "runs:parser",
+        Entry::Builder => "runs:builder",
+        Entry::New => "runs:new",
+    });
+    let (j, f) = judge_entry(cfg, input, entry);
     if let Some(j) = j {
         if j.invoked {
             ctx.st.nontrivial(fnv(format!("{cfg:?}{input}{via_parser}").as_bytes()));
@@ -208,7 +239,7 @@ fn one(ctx: &mut Ctx, cfg: &Cfg, input: &str, via_parser: bool) {
         if j.post_refused {
             ctx.st.count("result:post-check-refused");
         }
-        ctx.st.sample(|| json!({"member": cfg, "input": input, "entry": if via_parser { "from_str" } else { "build" }, "trace": j.word}));
+        ctx.st.sample(|| json!({"member": cfg, "input": input, "entry": match entry { Entry::Parser => "from_str", Entry::Builder => "build", Entry::New => "GenericPurl::new" }, "trace": j.word}));
         ctx.st.set_insert("trace-words", j.word);
     }
     if let Some(f) = f {
@@ -218,8 +249,8 @@ fn one(ctx: &mut Ctx, cfg: &Cfg, input: &str, via_parser: bool) {
         } else {
             input.to_string()
         };
-        let g = judge(cfg, &min, via_parser).1.unwrap_or(f);
-        ctx.st.violation("C14.protocol", format!("C14.protocol:{}:{}", g.kind, g.tag), g.detail, json!({"cfg": cfg, "input": min, "via_parser": via_parser}));
+        let g = judge_entry(cfg, &min, entry).1.unwrap_or(f);
+        ctx.st.violation("C14.protocol", format!("C14.protocol:{}:{}", g.kind, g.tag), g.detail, json!({"cfg": cfg, "input": min, "via_parser": via_parser, "via_new": entry == Entry::New}));
     }
 }
 
@@ -264,6 +295,7 @@ pub fn run(ctx: &mut Ctx) {
                 _ => {
                     let name = if r.chance(1, 8) { String::new() } else { gen::mixed_string(&mut r, 1, 8, 40) };
                     one(ctx, &cfg, &name, false);
+                    one_entry(ctx, &cfg, &name, Entry::New);
                 },
             }
         }
@@ -276,5 +308,8 @@ pub fn run(ctx: &mut Ctx) {
 pub fn replay(_monitor: &str, case: &Value) -> Result<Option<Fail>, String> {
     let cfg: Cfg = serde_json::from_value(case.get("cfg").cloned().unwrap_or(Value::Null)).map_err(|e| e.to_string())?;
     let via = case.get("via_parser").and_then(|v| v.as_bool()).unwrap_or(true);
+    if case.get("via_new").and_then(|v| v.as_bool()).unwrap_or(false) {
+        return Ok(judge_entry(&cfg, str_field(case, "input")?, Entry::New).1);
+    }
     Ok(judge(&cfg, str_field(case, "input")?, via).1)
 }
